@@ -30,6 +30,16 @@ def numkeys(d, rng):
     return d
 
 
+OTHER_FORMAT_DOCS = [
+    ("xml", "<a>x<!--c-->y</a>"), ("xml", "<a>x<![CDATA[y]]>z<b/>w</a>"), ("xml", "<r id=\"1\"><i>1</i><j k=\"v\">t</j><i>2</i><i><n>3</n></i></r>"),
+    ("xml", "<?xml version=\"1.0\"?><!-- lead --><r><e/><e>1</e>text<e a=\"b\"/></r>"),
+    ("toml", "a = 1\n[t]\nb = [1, 2, [3]]\n[t.u]\nc = {d = 1, e = [1]}\n[[arr]]\nx = 1\n[[arr]]\nx = 2\n[arr.sub]\ny = 3\n"),
+    ("props", "a.b.c = 1\na.b.d = 2\nl.0 = x\nl.1 = y\nm.0.k = v\n"), ("csv", "a,b\n1,2\n3,4\n"), ("tsv", "a\tb\n1\t2\n"),
+    ("lua", "return {a = {1, 2, {b = 3}}, [\"c d\"] = {e = {}}, f = {{g = 1}, {g = 2}}}"), ("json", "{\"a\": [{\"b\": [1, {\"c\": 2}]}], \"1\": {\"0\": 3}}"),
+    ("yaml", "a: [1, {b: [2, {c: 3}]}]\n\"1\": {\"2\": x}\n"),
+]
+
+
 def gen_alias_yaml(rng):
     """a small YAML document (flow style) with anchors on maps / sequences / scalars and aliases as map values,
     sequence elements and merge keys"""
@@ -50,6 +60,11 @@ def gen_alias_yaml(rng):
     if rng.random() < 0.4:
         lines.append("e: [{<<: *x, p: 3}, *y]")
     return "\n".join(lines) + "\n"
+
+
+def c02_unser(b):
+    import c02
+    return c02.unser_json(b)
 
 
 def compound_add(e):
@@ -103,7 +118,30 @@ def run(chk):
                 u = ("pipe", ("assign", ("getkey", "z"), path_expr(sp)), ("del", ("index", path_expr(sp), lit(chk.rng.choice([0, 1])))))
         hist.append((u, d))
         cases.append((("pipe", u, q_paths), d))
+    # a delete on a rebuilt container renumbers ALL its survivors (deleteFromArray), whatever keys they carried: judged
+    # against the model (remove_item), the rebuilt container being the recorded stale-key class until then
+    dd_off = len(cases)
+    for _ in range(n // 2):
+        d = evalgen.gen_doc(chk.rng)
+        g.set_doc(d)
+        f = g.derive()
+        k = chk.rng.choice([0, 1, -1, 2])
+        cases.append((("pipe", f, ("pipe", ("del", ("index", ("self",), lit(k))), ("collect", ("pipe", ("index", ("self",), None), ("key",))))), d))
     impl, mm, unsup, err = evalcheck.correspondence(chk, cases, "c16_cases")
+    for i in range(dd_off, len(cases)):
+        res = evalcheck.results_of(impl[i])
+        if res is None or len(res) != 1 or i in evalcheck.LAST_UNSUP:
+            continue
+        try:
+            keys = c02_unser(res[0])
+        except Exception:
+            continue
+        chk.count(("derived-del", evalgen.render(cases[i][0]), json.dumps(cases[i][1])), nontrivial=isinstance(keys, list) and len(keys) > 1)
+        # (elements that came out of a map keep string-typed keys, renumbered "0", "1", ...: compared by text)
+        if isinstance(keys, list) and [str(k) for k in keys] != [str(j) for j in range(len(keys))] and len(chk.violations) < 5:
+            chk.violation({"kind": "eval", "expr": evalgen.render(cases[i][0]), "doc": cases[i][1], "impl": impl[i].decode("utf-8", "replace"),
+                           "expect": (b"OK\n" + evalcheck.ser(list(range(len(keys)))) + b"\n").decode()}, True,
+                          "after a delete the surviving elements of the sequence do not report their positions")
     if err:
         broken.append("model evaluation failed: " + err[-600:])
     nviol = 0
@@ -216,15 +254,20 @@ def run(chk):
     for _ in range(600 if thorough else 60):
         y = gen_alias_yaml(chk.rng)
         for f in ("explode(.)", "explode(.) | .a.p[0] = 99", "explode(.) | del(.a)", "explode(.) | .c[0].q.r = \"changed\""):
-            ycases.append((y, f))
+            ycases.append(("yaml", y, f))
+    # what every other decoder builds is well-keyed too (XML text split by comments / CDATA, attributes, repeated
+    # siblings; TOML tables and arrays of tables; properties paths; CSV rows; Lua tables)
+    for fmt, text in OTHER_FORMAT_DOCS:
+        for f in (".", ".. |= .", "del(.. | select(. == \"zzz\"))"):
+            ycases.append((fmt, text, f))
     yreq = []
-    for y, f in ycases:
-        yreq.append({"op": "eval", "expr": f, "input": y, "in": "yaml", "out": "json", "indent": 0})
+    for fmt, y, f in ycases:
+        yreq.append({"op": "eval", "expr": f, "input": y, "in": fmt, "out": "json", "indent": 0})
         for q in ("[.. | path]", "[.. | key]", "[.. | parent | path]"):
-            yreq.append({"op": "eval", "expr": f + " | " + q, "input": y, "in": "yaml", "out": "json", "indent": 0})
+            yreq.append({"op": "eval", "expr": f + " | " + q, "input": y, "in": fmt, "out": "json", "indent": 0})
     yresp = vlib.yqh_parallel(yreq)
     ny = 0
-    for k, (y, f) in enumerate(ycases):
+    for k, (fmt, y, f) in enumerate(ycases):
         r = yresp[4 * k:4 * k + 4]
         if any((not x) or x.get("err") or x.get("panic") or "out_b64" not in x for x in r):
             chk.count(("yaml", f, y), nontrivial=False)
@@ -242,7 +285,7 @@ def run(chk):
         chk.count(("yaml", f, y), nontrivial=True)
         for name, g_, w_ in (("path", got[0], want[0]), ("key", got[1], want[1]), ("parent", got[2], want[2])):
             if g_ != w_ and len(chk.violations) < 6:
-                chk.violation({"kind": "yamlpath", "expr": f, "query": name, "yaml": y, "impl": json.dumps(g_), "expect": json.dumps(w_)}, True,
+                chk.violation({"kind": "yamlpath", "expr": f, "query": name, "yaml": y, "fmt": fmt, "impl": json.dumps(g_), "expect": json.dumps(w_)}, True,
                               "after %s the nodes do not report where they are (%s)" % (f, name))
     chk.extra["yaml_alias_documents_judged"] = ny
     chk.extra["histories_not_judged(outside model fragment, rebuilt container involved)"] = undecided
@@ -261,7 +304,7 @@ def run(chk):
 
 def replay_yaml(rp):
     q = {"path": "[.. | path]", "key": "[.. | key]", "parent": "[.. | parent | path]"}[rp["query"]]
-    r = vlib.yqh_batch([{"op": "eval", "expr": rp["expr"] + " | " + q, "input": rp["yaml"], "in": "yaml", "out": "json", "indent": 0}])[0]
+    r = vlib.yqh_batch([{"op": "eval", "expr": rp["expr"] + " | " + q, "input": rp["yaml"], "in": rp.get("fmt", "yaml"), "out": "json", "indent": 0}])[0]
     if not r or r.get("err") or "out_b64" not in r:
         return True
     return json.loads(vlib.b64d(r["out_b64"])) == json.loads(rp["expect"])
